@@ -444,6 +444,36 @@ impl Octree {
     }
 }
 
+/// Verification hook: the leaves of the finished octree.
+#[cfg(fidget_verif)]
+impl Octree {
+    /// Returns `(depth, lower corner, upper corner, corner mask, first vertex
+    /// index, vertex count)` for every leaf cell that holds vertices
+    pub fn verif_leaves(
+        &self,
+    ) -> Vec<(usize, [f32; 3], [f32; 3], u8, usize, usize)> {
+        let mut out = vec![];
+        let mut todo = vec![CellIndex::<3>::default()];
+        while let Some(c) = todo.pop() {
+            match self[c] {
+                Cell::Leaf(Leaf { mask, index }) => out.push((
+                    c.depth,
+                    c.corner(Corner::new(0)),
+                    c.corner(Corner::new(7)),
+                    mask.index() as u8,
+                    index,
+                    CELL_TO_VERT_TO_EDGES[mask.index()].len(),
+                )),
+                Cell::Branch { index } => {
+                    todo.extend(Corner::iter().map(|i| c.child(index, i)))
+                }
+                Cell::Empty | Cell::Full | Cell::Invalid => (),
+            }
+        }
+        out
+    }
+}
+
 impl std::ops::Index<CellIndex<3>> for Octree {
     type Output = Cell<3>;
 
